@@ -29,6 +29,15 @@ def _():
     return BioConsert(starting_algorithms=[CopelandMethod(), KwikSortRandom()])
 
 
+@_reg("BioConsert[KwikSort,Borda]", random=True)
+def _():
+    # a starter that accepts every scheme FIRST, then one that refuses some: the refusal must still surface
+    from corankco.algorithms.bioconsert.bioconsert import BioConsert
+    from corankco.algorithms.borda.borda import BordaCount
+    from corankco.algorithms.kwiksort.kwiksortrandom import KwikSortRandom
+    return BioConsert(starting_algorithms=[KwikSortRandom(), BordaCount()])
+
+
 @_reg("BioConsert[PickAPerm]")
 def _():
     from corankco.algorithms.bioconsert.bioconsert import BioConsert
@@ -89,6 +98,13 @@ def _():
     from corankco.algorithms.parcons.parcons import ParCons
     from corankco.algorithms.kwiksort.kwiksortrandom import KwikSortRandom
     return ParCons(auxiliary_algorithm=KwikSortRandom(), bound_for_exact=2)
+
+
+@_reg("ParCons(bound=3,aux=KwikSort)", random=True)
+def _():
+    from corankco.algorithms.parcons.parcons import ParCons
+    from corankco.algorithms.kwiksort.kwiksortrandom import KwikSortRandom
+    return ParCons(auxiliary_algorithm=KwikSortRandom(), bound_for_exact=3)
 
 
 @_reg("ParCons(bound=0,aux=BioCo)")
